@@ -17,6 +17,7 @@ if [ -n "$(git -C /repo status --porcelain)" ]; then echo "/repo dirty"; exit 2;
 git -C /repo apply $sd/patch.diff
 res=$(./check $prop --tier quick 2>&1 | grep -E "^\[$prop\] tier|VIOLATION" | cut -c1-300)
 git -C /repo checkout -- .
+git -C /verif checkout -- evidence/$prop.json 2>/dev/null   # the evidence written on the mutated tree must never be committed
 echo "$res"
 mkdir -p $out && cp $sd/patch.diff $sd/demo.py $out/
 /venv/bin/python - "$sd/meta.json" "$out/meta.json" "$c" "$p" "$t" "$res" <<'PY'
